@@ -35,7 +35,7 @@ func stdFamilies(tier string) []family {
 	return []family{
 		famP3(space.P3Opt{}, "P3"),
 		famPCastle(0),
-		famPEP([]int8{space.R}, false, "PEP(extra=rook)"),
+		famPEP([]int8{space.Q}, false, "PEP(extra=queen)"),
 		famPPromo(),
 		famPBlock(),
 		famPEPOwn([]int8{space.R}, "PEP(own rook)"),
